@@ -118,6 +118,8 @@ func genC13(r *core.Rng, i int) (files map[string]string, prog string, extra []s
 				"SELECT id, f(v), f(v, id) FROM t WHERE f(v) > 3;\nSELECT k, ag(v) FROM t GROUP BY k;\nSELECT id, ag(v) OVER (PARTITION BY k) FROM t WHERE id % 3 = 0;\nSELECT id, pick(v, id) OVER (PARTITION BY k) FROM t;",
 			// cursor over a large query + variable use
 			"DECLARE c CURSOR FOR SELECT id, v FROM t WHERE v > 1 ORDER BY v, id;\nOPEN c;\nVAR @i, @v, @n := 0;\nWHILE @i, @v IN c DO @n := @n + 1; END WHILE;\nCLOSE c;\nPRINT @n;\nSELECT COUNT(*) FROM t;",
+			// a function that fetches from a cursor of the enclosing scope, called once per row by parallel workers
+			"DECLARE c CURSOR FOR SELECT id, v FROM t ORDER BY id;\nOPEN c;\nDECLARE nx FUNCTION () AS BEGIN VAR @a; VAR @b; FETCH c INTO @a, @b; RETURN @a; END;\nSELECT COUNT(nx()), COUNT(DISTINCT nx()) FROM t;\nSELECT id FROM t WHERE nx() IS NULL AND CURSOR c IS NOT IN RANGE;\nCLOSE c;",
 			// a statement failing inside one of several workers
 			"SELECT id, 100 / (v - 5) FROM t;",
 			"SELECT id, (SELECT w FROM u WHERE u.k = t.k) FROM t;",
